@@ -104,7 +104,7 @@ func c13Threshold(c *eng.Ctx, r *eng.Report) {
 			if c.IsTestFunc(fn) {
 				continue
 			}
-			for _, st := range eng.FieldStores(fn, "groupNodeInfo", "groupMemberNum") {
+			for _, st := range eng.FieldStores(fn, "consensus/logical/group_create.groupNodeInfo", "groupMemberNum") {
 				writers++
 				v := st.(*ssa.Store).Val
 				_, isParam := v.(*ssa.Parameter)
@@ -134,7 +134,7 @@ func c13Threshold(c *eng.Ctx, r *eng.Report) {
 		if c.IsTestFunc(fn) {
 			continue
 		}
-		for _, st := range append(eng.FieldStores(fn, "GroupSignGenerator", "threshold"), eng.FieldStores(fn, "groupSignGenerator", "threshold")...) {
+		for _, st := range append(eng.FieldStores(fn, "consensus/model.GroupSignGenerator", "threshold"), eng.FieldStores(fn, "consensus/logical.groupSignGenerator", "threshold")...) {
 			r.Check(fn == newGen || fn == newGenL, rule, "threshold-writer:"+eng.FuncName(fn), c.Pos(st.Pos()), "only the constructor sets the threshold", eng.FuncName(fn)+" rewrites GroupSignGenerator.threshold after construction")
 		}
 	}
